@@ -462,6 +462,68 @@ def client_codes(ctx, desc):
     rig.close()
 
 
+def locked_table(ctx, rng):
+    """The application changes the access type of an array's element declaration while the node is in service (a table
+    that is locked after commissioning): members that are not listed one by one follow the declaration of member 1 at
+    the time of the request, also those that have been served before."""
+    from canmon.ref.sdo_client import RefSdoClient  # noqa: F401 - the rig builds one
+    dt = rng.choice([R.UNSIGNED8, R.UNSIGNED16, R.INTEGER32])
+    width = R.width(dt) // 8
+    members = [gen.variable("Number of entries", 0x2400, 0, R.UNSIGNED8, "ro", default=16),
+               gen.variable("Element", 0x2400, 1, dt, "rw")]
+    od = gen.typed_od(rpdos=(), tpdos=(), extra=[gen.record("Table", 0x2400, members, array=True)])
+    rig = rigs.ServerRig(od, 5)
+    write_log = []
+    rig.node.add_write_callback(lambda **kw: write_log.append((kw["index"], kw["subindex"], bytes(kw["data"]))))
+    c = rig.client
+    subs = [1] + rng.sample(range(2, 17), 3)
+    served = subs[:rng.randint(1, len(subs))]           # members that have been read and written before the change
+    first = {}
+    for sub in served:
+        first[sub] = bytes(rng.getrandbits(8) for _ in range(width))
+        if c.download(0x2400, sub, first[sub])[0] != "ok" or c.upload(0x2400, sub)[:2] != ("ok", first[sub]):
+            ctx.inconc("locked-table: set-up transfer failed", {"sub": sub})
+            rig.close()
+            return
+    for access, kind in (("ro", "write-ro"), ("const", "write-ro"), ("wo", "read-wo"), ("rw", None)):
+        od[0x2400][1].access_type = access
+        for sub in subs:
+            mux = (0x2400, sub)
+            case = {"sub-check": "server", "kind": kind or "allowed", "scenario": "locked-table", "index": 0x2400, "sub": sub,
+                    "type": R.NAMES[dt], "access": access, "served_before": sub in served}
+            data = bytes(rng.getrandbits(8) for _ in range(width))
+            store, nlog = copy.deepcopy(rig.node.data_store), len(write_log)
+            variant = "locked-table:" + ("served-before" if sub in served else "fresh-member")
+            ctx.count("locked_table_requests")
+            if kind == "write-ro":
+                r = c.download(*mux, data, mode=rng.choice(["expedited", "segmented"]))
+                ctx.count("refusals_judged")
+                ctx.case(("server", kind, variant, access))
+                if r[0] != "abort":
+                    ctx.violation(f"not-refused:{kind}:{variant}", f"write to a member of a table declared {access} was not refused: {r}", case, rig.wire(10))
+                elif r[1] not in ACCEPT[kind]:
+                    ctx.violation(f"wrong-abort-code:{kind}:{variant}", f"answered {r[1]:#010x}", case, rig.wire(10))
+                if rig.node.data_store != store:
+                    ctx.violation(f"refused-write-changed-store:{kind}:locked-table", f"data_store changed: {store.get(0x2400)} -> {rig.node.data_store.get(0x2400)}", case)
+                if len(write_log) != nlog:
+                    ctx.violation(f"refused-write-called-callback:{kind}:locked-table", f"write callback told {write_log[nlog:]}", case)
+            elif kind == "read-wo":
+                r = c.upload(*mux)
+                ctx.count("refusals_judged")
+                ctx.case(("server", kind, variant, access))
+                if r[0] != "abort":
+                    ctx.violation(f"not-refused:{kind}:{variant}", f"read of a member of a table declared wo was not refused: {r}", case, rig.wire(10))
+                elif r[1] not in ACCEPT[kind]:
+                    ctx.violation(f"wrong-abort-code:{kind}:{variant}", f"answered {r[1]:#010x}", case, rig.wire(10))
+            else:
+                r = c.download(*mux, data)
+                if r[0] != "ok" or c.upload(*mux)[:2] != ("ok", data):
+                    ctx.violation("allowed-transfer-refused:locked-table", f"table is rw again, download gave {r}", case, rig.wire(10))
+    for mech, msg in c.violations:
+        ctx.violation("wire:" + mech, msg, {"scenario": "locked-table"}, rig.wire(14))
+    rig.close()
+
+
 def run(ctx, desc):
     rigs.LogCapture()
     if desc["kind"] == "client":
@@ -475,6 +537,7 @@ def run(ctx, desc):
         server_refusals(ctx, h, rng)
         h.rig.close()
         real_client_refusals(ctx, model, rng)
+        locked_table(ctx, rng)
     ctx.sample({"sub-check": "server", "example_od": [vm.brief() for _, vm in list(model.variables())[:4]]})
 
 
